@@ -37,6 +37,9 @@ Call(c, can) ==
    \* the state object remembers the last saturation flash: temperature and BRANCH (Q = 0 liquid, Q = 1 vapour)
    /\ hid' = IF c.calc /\ ads.link = "valid" /\ c.m # "p_triple"
              THEN (IF c.m \in TDep /\ can THEN LeavesOn(c.m) ELSE IF hid = "absent" THEN "created" ELSE hid)
+             ELSE IF c.calc /\ ads.link # "valid" /\ c.m # "p_triple" THEN "creation failed"
+             \* adsorbate.py:218-225 records _backend_mode BEFORE the state object is created: after one failed
+             \* creation self.backend silently returns None instead of raising - the outcome must not depend on it
              ELSE hid
    /\ last' = [kind |-> "call", call |-> c, can |-> can,
                out |-> ImplOutcome(ads.link, can, ads.user, c.calc),
